@@ -6,6 +6,7 @@ import (
 	"fmt"
 	"os"
 	"strconv"
+	"sync"
 	"time"
 
 	"github.com/bvinc/go-sqlite-lite/sqlite3"
@@ -49,7 +50,10 @@ type SqliteDb struct {
 	readConn  *sqlite3.Conn
 	queryLeaf *sqlite3.Stmt
 
-	shards       *VersionRange
+	shards *VersionRange
+	// shardsMtx guards the lookup memo of shards: the tree writer goroutine resolves shards
+	// while it prunes in the background, concurrently with node reads of the caller.
+	shardsMtx    sync.Mutex
 	shardQueries map[int64]*sqlite3.Stmt
 
 	metrics metrics.Proxy
@@ -575,7 +579,9 @@ func (sql *SqliteDb) getShard(version int64) (int64, error) {
 		}
 		return sql.shards.Last(), nil
 	}
+	sql.shardsMtx.Lock()
 	v := sql.shards.FindMemoized(version)
+	sql.shardsMtx.Unlock()
 	if v == -1 {
 		return -1, fmt.Errorf("version %d is after the first shard; shards=%v", version, sql.shards.versions)
 	}
